@@ -7,7 +7,7 @@ uint64_t ll_read(uint32_t fd, uint8_t* buf, uint64_t n) {
   uint64_t avail = g_wpos - g_rpos;
   if (avail == 0) { return 0; }            /* writer gone: EOF */
   uint64_t k = n < avail ? n : avail;
-  if (n > 4 && k > 1) { uint64_t c = in_range(1, 8); if (c < k) { k = c; g_shortreads++; } }   /* payload reads may be short; <=4-byte writes are atomic */
+  if (n != 1 && n != 4 && k > 1) { uint64_t c = in_range(1, 8); if (c < k) { k = c; g_shortreads++; } }   /* payload reads (2, 3, 5.. bytes here) may be short; the 1-byte type and 4-byte length are written atomically */
   for (uint64_t i = 0; i < 8; i++) if (i < k) buf[i] = g_pipe[g_rpos + i];
   g_rpos += k; return k;
 }
